@@ -78,7 +78,9 @@ def check_output(ctx, P, rounds, seed, see, rc, out, err, stdin):
         if l.startswith("PROPFAIL"):
             ctx.problem("propfail", l, case=case, signature="disp-" + " ".join(l.split()[2:5]))
         elif l.startswith("MISMATCH"):
-            ctx.problem("mismatch", l, case=case)
+            # the model and the code disagree: recorded (a few), but the search for a property-level failure goes on
+            if sum(1 for p in ctx.problems if p["kind"] == "mismatch") < 3:
+                ctx.problem("mismatch", l, case=case)
         elif l.startswith("SUMMARY"):
             for kv in l.split()[1:]:
                 k, v = kv.split("=")
@@ -115,7 +117,7 @@ def correspondence(ctx):
         if len(ctx.samples) < 6 and any(rounds):
             ctx.samples.append(dict(P=P, rounds=rounds, sched_seed=seed, see=list(see),
                                     first_events=out.splitlines()[:12]))
-        if len(ctx.problems) >= 3:
+        if sum(1 for p in ctx.problems if p["kind"] in ("propfail", "hang", "sanitizer")) >= 3:
             break
 
 
